@@ -6,6 +6,7 @@ import (
 	"fmt"
 	"reflect"
 	"runtime"
+	"sort"
 	"strings"
 	"time"
 	"unsafe"
@@ -13,7 +14,6 @@ import (
 	"github.com/philpearl/avro"
 
 	"verifharness/dynenc"
-	"verifharness/explore"
 	"verifharness/filedrv"
 	"verifharness/fw"
 	"verifharness/gv"
@@ -31,6 +31,16 @@ type GCProbe struct {
 }
 
 var hook func(label string)
+
+// stmtPoints is set in overlay builds (c11_ovl.go): statement-level interception points are available.
+var stmtPoints bool
+
+// stmtOccCap: how many dynamic occurrences of each static statement point are choice points in the
+// current execution (0 = statement points off; set per tier and variant).
+var stmtOccCap int
+
+// resetStmtCounts is called at the start of every explored execution (set in overlay builds).
+var resetStmtCounts = func() {}
 
 type probeCodec struct {
 	lng avro.Int64Codec
@@ -308,12 +318,22 @@ func runType(c *fw.Ctx, idx int, tc tcase, bound int) {
 	// closing them; (2) a previous read whose banks were closed (and one collection) precedes the read, so
 	// banks come recycled from the pool
 	var execs int64
-	var stD explore.Stats
+	var stD gcStats
 	for variant := 0; variant < 3; variant++ {
 	variant := variant
-	stV := explore.Run(bound, 0, func(ch *explore.Chooser) {
+	// quick: statement-level points (first occurrence of each) in the main variant, codec-boundary points
+	// in the other two; thorough: the first two occurrences everywhere
+	switch {
+	case c.Tier == "thorough":
+		stmtOccCap = 2
+	case variant == 0:
+		stmtOccCap = 1
+	default:
+		stmtOccCap = 0
+	}
+	stV := gcExplore(bound, 3000, func(ch *placer) {
 		execs++
-		desc := fmt.Sprintf("decode %s (variant %s) with collections at %s", tc.name, [...]string{"banks kept", "banks dropped unclosed", "banks recycled from the pool"}[variant], placement(ch))
+		desc := fmt.Sprintf("decode %s (variant %s) with collections at %s", tc.name, [...]string{"banks kept", "banks dropped unclosed", "banks recycled from the pool"}[variant], ch.Desc())
 		if variant == 2 {
 			hook = nil
 			avro.ReadFile(&filedrv.Reader{Data: cleanFile}, reflect.New(outer).Elem().Interface(), func(val unsafe.Pointer, rb *avro.ResourceBank) error {
@@ -324,8 +344,9 @@ func runType(c *fw.Ctx, idx int, tc tcase, bound int) {
 			churn()
 		}
 		c.Begin(locus+"|decode", desc)
+		resetStmtCounts()
 		hook = func(label string) {
-			if ch.Choose("gc@"+label, 2) == 1 {
+			if ch.At(label) {
 				collect()
 			}
 		}
@@ -345,7 +366,7 @@ func runType(c *fw.Ctx, idx int, tc tcase, bound int) {
 			})
 		})
 		hook = nil
-		det := map[string]interface{}{"type": tc.name, "gc_placement": placement(ch), "direction": "decode", "variant": variant}
+		det := map[string]interface{}{"type": tc.name, "gc_placement": ch.Desc(), "direction": "decode", "variant": variant}
 		if pan != nil {
 			c.Violation("panic:"+fw.PanicClass(pan)+"@"+site+"|"+locus+"|decode", fmt.Sprintf("panic %v — %s", pan, desc), det)
 			return
@@ -365,20 +386,26 @@ func runType(c *fw.Ctx, idx int, tc tcase, bound int) {
 			}
 		}
 		runtime.KeepAlive(banks)
-	}, nil)
+	})
 	stD.ChoicePoints += stV.ChoicePoints
+	stD.PairsCapped = stD.PairsCapped || stV.PairsCapped
 	if stV.MaxDepth > stD.MaxDepth {
 		stD.MaxDepth = stV.MaxDepth
 	}
 	}
 
 	// ---- encode direction: GC placements during Write (incl. inside map iteration)
-	stE := explore.Run(bound, 0, func(ch *explore.Chooser) {
+	stmtOccCap = 1
+	if c.Tier == "thorough" {
+		stmtOccCap = 2
+	}
+	stE := gcExplore(bound, 3000, func(ch *placer) {
 		execs++
-		desc := fmt.Sprintf("encode %s with collections at %s", tc.name, placement(ch))
+		desc := fmt.Sprintf("encode %s with collections at %s", tc.name, ch.Desc())
 		c.Begin(locus+"|encode", desc)
+		resetStmtCounts()
 		hook = func(label string) {
-			if ch.Choose("gc@"+label, 2) == 1 {
+			if ch.At(label) {
 				collect()
 			}
 		}
@@ -401,7 +428,7 @@ func runType(c *fw.Ctx, idx int, tc tcase, bound int) {
 			eerr = e.Flush()
 		})
 		hook = nil
-		det := map[string]interface{}{"type": tc.name, "gc_placement": placement(ch), "direction": "encode"}
+		det := map[string]interface{}{"type": tc.name, "gc_placement": ch.Desc(), "direction": "encode"}
 		if pan != nil {
 			c.Violation("panic:"+fw.PanicClass(pan)+"@"+site+"|"+locus+"|encode", fmt.Sprintf("panic %v — %s", pan, desc), det)
 			return
@@ -448,29 +475,118 @@ func runType(c *fw.Ctx, idx int, tc tcase, bound int) {
 				return
 			}
 		}
-	}, nil)
+	})
 	c.Eval(execs)
 	c.NontrivialN(execs)
 	c.Count("states", execs)
 	c.Count("transitions", stD.ChoicePoints+stE.ChoicePoints)
 	c.Count("traces_validated_against_impl", execs)
 	c.Max("max_gc_points_in_one_decode", int64(stD.MaxDepth))
+	if stD.PairsCapped || stE.PairsCapped {
+		c.NotExhaustive("pairs of collection placements were strided down to 3000 per (type, variant) in at least one case")
+	}
+	if stmtPoints {
+		c.Count("statement_level_points_enabled", 1)
+	}
 	if idx%23 == 0 {
 		c.Sample(map[string]interface{}{"type": tc.name, "gc_points_decode": stD.MaxDepth, "gc_points_encode": stE.MaxDepth, "placements_explored": execs, "bound": bound})
 	}
 }
 
-func placement(ch *explore.Chooser) string {
-	var ps []string
-	for i, a := range ch.Taken {
-		if a == 1 {
-			ps = append(ps, fmt.Sprintf("#%d(%s)", i, strings.TrimPrefix(ch.Labels[i], "gc@")))
-		}
+// placer decides where collections are injected in one execution. A point is identified by its label
+// and its occurrence number in the execution (not by its position in the sequence of points), so the
+// enumeration does not depend on executions having identical point sequences.
+type placer struct {
+	inject map[string]bool
+	occ    map[string]int
+	ids    []string
+	fired  []string
+}
+
+func newPlacer(inject ...string) *placer {
+	p := &placer{inject: map[string]bool{}, occ: map[string]int{}}
+	for _, id := range inject {
+		p.inject[id] = true
 	}
-	if len(ps) == 0 {
+	return p
+}
+
+func (p *placer) At(label string) bool {
+	p.occ[label]++
+	id := fmt.Sprintf("%s@%d", label, p.occ[label])
+	p.ids = append(p.ids, id)
+	if p.inject[id] {
+		p.fired = append(p.fired, id)
+		return true
+	}
+	return false
+}
+
+func (p *placer) Desc() string {
+	if len(p.inject) == 0 {
 		return "no injected collection"
 	}
-	return strings.Join(ps, ",")
+	var want []string
+	for id := range p.inject {
+		want = append(want, id)
+	}
+	sort.Strings(want)
+	return strings.Join(want, " + ")
+}
+
+type gcStats struct {
+	Executions   int64
+	ChoicePoints int64
+	MaxDepth     int
+	PairsCapped  bool
+}
+
+// gcExplore runs exec once without injection, then once per distinct point of that run with one
+// collection injected there, and (bound>=2) once per pair of distinct points, up to pairCap pairs
+// (evenly strided when there are more).
+func gcExplore(bound int, pairCap int, exec func(p *placer)) gcStats {
+	var st gcStats
+	runOne := func(p *placer) {
+		exec(p)
+		st.Executions++
+		st.ChoicePoints += int64(len(p.ids))
+		if len(p.ids) > st.MaxDepth {
+			st.MaxDepth = len(p.ids)
+		}
+	}
+	base := newPlacer()
+	runOne(base)
+	seen := map[string]bool{}
+	var ids []string
+	for _, id := range base.ids {
+		if !seen[id] {
+			seen[id] = true
+			ids = append(ids, id)
+		}
+	}
+	if bound >= 1 {
+		for _, id := range ids {
+			runOne(newPlacer(id))
+		}
+	}
+	if bound >= 2 {
+		total := len(ids) * (len(ids) - 1) / 2
+		stride := 1
+		if total > pairCap {
+			stride = total/pairCap + 1
+			st.PairsCapped = true
+		}
+		k := 0
+		for i := 0; i < len(ids); i++ {
+			for j := i + 1; j < len(ids); j++ {
+				if k%stride == 0 {
+					runOne(newPlacer(ids[i], ids[j]))
+				}
+				k++
+			}
+		}
+	}
+	return st
 }
 
 func run(f func()) (pan interface{}, site string) {
@@ -501,10 +617,10 @@ func init() {
 			if tier == "thorough" {
 				b = 2
 			}
-			return fmt.Sprintf("workers run with GOGC=off GODEBUG=clobberfree=1,invalidptr=1, so the only collections are the ones the explorer injects and a freed object is overwritten at once; an instrumented leaf type GCProbe (registered custom codec) provides a choice point inside every Read (before/middle/after), New, Omit and Write, plus callback entry and before/after each Encode; the type universe puts probes inside and after every composite: all type expressions of depth<=2 (3 for maps and pointers in thorough) over leaves {GCProbe,string,[]byte,int64,*int64,*GCProbe,time.Time,null.String} and wrappers {*τ,[]τ,map[string]τ,struct{X τ;P GCProbe}}, each as struct{F τ; Tail GCProbe; G τ omitempty}; the decode direction runs in three variants (banks kept by the application; records kept but banks dropped unclosed; banks recycled from the pool after an earlier read whose banks were closed, one collection in between); for every type and variant ALL placements of at most %d injected collection(s) (each = 2×runtime.GC + allocation of garbage in 16 size classes) during ReadFile and during encoding are enumerated, and one collection is always run after decoding and again after the first comparison; oracle: every retained (shallow-copied) record equals the value written after the last collection, encoded data equals the collection-free run as a datum, the worker does not die; distinct_nontrivial = (type, placement) executions", b)
+			return fmt.Sprintf("workers run with GOGC=off GODEBUG=clobberfree=1,invalidptr=1, so the only collections are the ones the explorer injects and a freed object is overwritten at once; the library is rebuilt with a generated overlay that calls a hook before every statement of every function, and an instrumented leaf type GCProbe (registered custom codec) adds points inside every Read (before/middle/after), New, Omit and Write, plus callback entry and before/after each Encode: every one of these is a choice point (statement points on the decode/encode path: codecs, banks, buffers, the record loop of ReadFile, Encoder; quick tier: the first dynamic occurrence of each static point in the main variant and in encoding, codec-boundary points only in the two bank-lifetime variants; thorough: the first two occurrences in all variants); the type universe puts probes inside and after every composite: all type expressions of depth<=2 (3 for maps and pointers in thorough) over leaves {GCProbe,string,[]byte,int64,*int64,*GCProbe,time.Time,null.String} and wrappers {*τ,[]τ,map[string]τ,struct{X τ;P GCProbe}}, each as struct{F τ; Tail GCProbe; G τ omitempty}; the decode direction runs in three variants (banks kept by the application; records kept but banks dropped unclosed; banks recycled from the pool after an earlier read whose banks were closed, one collection in between); for every type and variant ALL placements of at most %d injected collection(s) (each = 2×runtime.GC + allocation of garbage in 16 size classes) during ReadFile and during encoding are enumerated, and one collection is always run after decoding and again after the first comparison; oracle: every retained (shallow-copied) record equals the value written after the last collection, encoded data equals the collection-free run as a datum, the worker does not die; distinct_nontrivial = (type, placement) executions", b)
 		},
 		Assumptions: []string{
-			"collections land only at interception points, not between arbitrary machine instructions (e.g. not between an internal allocation and the store that publishes it when no leaf codec call intervenes); this window is unexplored",
+			"collections land at interception points: in the overlay build (the registered command) that is before EVERY statement of every library function (generated zzvs.StmtPoint hooks), plus inside the probe codec and at callback entry; a collection between two machine instructions of one statement (e.g. inside a single expression that converts a uintptr back to a pointer) is not placed",
 			"a correctly tracked object is never freed, so there are no false alarms; a stale copy in a dead stack slot can only hide a defect",
 		},
 		Init: initC11,
